@@ -7,7 +7,7 @@ here="$(cd "$(dirname "$0")/.." && pwd)"
 d="$here/seeded/$id"
 [ -f "$d/patch.diff" ] || { echo "no such seeded change: $id"; exit 2; }
 if ! git -C /repo diff --quiet; then echo "/repo has uncommitted changes; refusing"; exit 2; fi
-props=$(/venv/bin/python -c "import json,sys; m=json.load(open('$d/meta.json')); print(' '.join([m['property']]+m.get('also',[])))")
+[ -n "${PROPS:-}" ] && props="$PROPS" || props=$(/venv/bin/python -c "import json,sys; m=json.load(open('$d/meta.json')); print(' '.join([m['property']]+m.get('also',[])))")
 git -C /repo apply "$d/patch.diff" || { echo "patch does not apply"; exit 2; }
 trap 'git -C /repo checkout -- . ; git -C /repo clean -fdq -- atomica >/dev/null 2>&1' EXIT
 rc_all=0
